@@ -64,7 +64,7 @@ func ruleC04(w *World, r *Report) {
 		"R04.2 provenance of every match key and action parameter against the statement's mapping (n3_address/teid, ue_address, app_id, FAR teid, QFI or default, TC = configured map entry selected by the map's own presence bit else default TC, tunnel peer of the FAR's outer-header address, tunnel params), the orchestrator hands all of the session's rules to the builder in create/update/delete; " +
 		"R04.3 shared objects: the three tunnelParams literals agree, usedBy references are (F-SEID, FAR id)/(F-SEID, PDR id) in add and remove, every FAR of a deleted session releases its tunnel-peer reference unconditionally, application add/remove sit under the same non-empty-filter guard; " +
 		"R04.4 clearTables lists every table a builder writes, clearDatapathState re-initialises the interfaces after the clear on every non-error path, both interface entries go out in one write, start-up takes the clearing branch."
-	r.Explanation += " R04.9 IsAppFilterEmpty, interpreted for all valuations of its atoms, equals proto==0 ∧ (remote end of the PDR's direction all-wildcard)."
+	r.Explanation += " R04.9 IsAppFilterEmpty, interpreted for all valuations of its atoms, equals proto==0 ∧ (remote end of the PDR's direction all-wildcard). R04.2 (cont.) the status filter is interpreted for every status × method combination: OK / ALREADY_EXISTS pass, NOT_FOUND passes on DELETE only, everything else rejects; R04.11 a delete issued for Remove PDR hands the plug-in the session's remaining rules (the sessions entry is shared by the PDRs of a direction)."
 	r.NotDecided = "reference-count arithmetic over histories ('present iff at least one live rule uses it'); what the switch does"
 	info := loadP4Info(w.Repo, P)
 	closed := w.ConstInt(P, iePkg, "GateStatusClosed")
@@ -272,6 +272,7 @@ func ruleC04(w *World, r *Report) {
 	ruleC04Shared(w, r)
 	ruleC04Startup(w, r, info)
 	ruleC04AppFilterEmpty(w, r)
+	ruleC04PartialDelete(w, r)
 }
 
 // ruleC04AppSide: the application address/port come from the destination side for access
@@ -1162,4 +1163,32 @@ func ruleC04AppFilterEmpty(w *World, r *Report) {
 		r.ok("R04.9", fn, "IsAppFilterEmpty ⇔ proto==0 ∧ remote end of the PDR's direction is all-wildcard", w.Pos(f.Pos()), fmt.Sprintf("%d valuations of 7 atoms interpreted", n))
 	}
 	r.floor("R04.9 valuations interpreted", n, 90)
+}
+
+// ruleC04PartialDelete (R04.11): the sessions_uplink / sessions_downlink entry of a session is shared by
+// all its PDRs of that direction (R04.2). A Remove PDR may therefore delete it only with the last PDR of
+// the direction. UP4.sendDelete sees only the rule set it is handed, so when the modification handler
+// issues a delete for the removed rules it has to hand over the remaining rules as well — or the plug-in
+// has to look them up. Neither is the case when both rule-set arguments of the call are built from the
+// removed rules only.
+func ruleC04PartialDelete(w *World, r *Report) {
+	const P = "C04"
+	mod := w.Fn(P, "pfcpiface.(*PFCPConn).handleSessionModificationRequest")
+	del := w.ConstInt(P, pfcpPkg, "upfMsgTypeDel")
+	n := 0
+	for _, c := range datapathCalls(mod, "SendMsgToUPF") {
+		if sendMsgMethod(c) != del {
+			continue
+		}
+		n++
+		knowsRest := false
+		for _, a := range c.Call.Args[1:] {
+			s := symOf(a).String()
+			if strings.Contains(s, "GetSession#0") || strings.Contains(s, "PFCPSession.PacketForwardingRules") {
+				knowsRest = true
+			}
+		}
+		r.check(knowsRest, "R04.11", w.FuncName(mod), "a partial delete tells the datapath which rules of the session remain", w.Pos(c.Pos()), "one argument is the session's remaining rule set", "the delete issued for Remove PDR hands the UP4 plug-in only the removed rules: sendDelete deletes the sessions_uplink / sessions_downlink entry of the removed PDR although other PDRs of the same direction still use it (its key has no PDR ID) — after an accepted Remove PDR of one of two uplink PDRs the session's remaining uplink PDR matches no packet any more")
+	}
+	r.floor("R04.11 deletes issued by the modification handler", n, 1)
 }
